@@ -364,7 +364,10 @@ func (k *ExtendedKey) Neuter() (*ExtendedKey, error) {
 	// key will simply be the pubkey of the current extended private key.
 	//
 	// This is the function N((k,c)) -> (K, c) from [BIP32].
-	return NewExtendedKey(version, k.pubKeyBytes(), k.chainCode, k.parentFP,
+	// The neutered key gets its own copies of the byte slices: sharing them
+	// with the private key would let Zero() on either key wipe the other.
+	cp := func(b []byte) []byte { return append([]byte(nil), b...) }
+	return NewExtendedKey(version, cp(k.pubKeyBytes()), cp(k.chainCode), cp(k.parentFP),
 		k.depth, k.childNum, false), nil
 }
 
